@@ -233,9 +233,14 @@ def lsq_obligations(chk, mg, tier, rng):
         for nvol in ([order + 1, 7] if tier == "quick" else [order + 1, order + 2, 7, 9]):
             if (order, nvol) not in cases and nvol >= 2:
                 cases.append((order, nvol))
-    for order, nvol in cases:
+    # history: other orders on the SAME sampled volumes one after the other in one process (a fit that remembers anything of an earlier call
+    # on these volumes -- e.g. its design matrix -- fails the later ones)
+    n_plain = len(cases)
+    cases += [(1, 8), (3, 8), (2, 8), (3, 8)]       # 8 volumes: a volume set no earlier case has used
+    for ci, (order, nvol) in enumerate(cases):
         vols_f = numpy.array([400.0 - 25.0 * i for i in range(nvol)])
-        name = "lsq_poly[order=%d, nv=%d]" % (order, nvol)
+        earlier = [o for o, n in cases[n_plain:ci] if n == nvol] if ci >= n_plain else []
+        name = "lsq_poly[order=%d, nv=%d%s]" % (order, nvol, ", after orders %s on the same volumes" % earlier if ci >= n_plain else "")
         ctx = new_context()
         freqs = symvars("w", (nvol,), positive=True)
         v_array = symvars("v", (2,), positive=True)
@@ -265,12 +270,12 @@ def lsq_obligations(chk, mg, tier, rng):
             out = paths[0].result
         except SymError as e:
         # an undecided guard stops the symbolic run: look at the real code on concrete data before calling it inconclusive
-            replay_method(chk, mg, "lsq_poly", order, rng, "symbolic run stopped: %s" % e, nvol=nvol)
+            replay_method(chk, mg, "lsq_poly", order, rng, "symbolic run stopped: %s" % e, nvol=nvol, earlier=earlier)
             chk.inconclusive(name, str(e))
             continue
         except Exception as e:
             chk.obligation(name, "sat", kind="identity", detail="raises %s: %s" % (type(e).__name__, e))
-            replay_method(chk, mg, "lsq_poly", order, rng, "raises %s" % e, nvol=nvol)
+            replay_method(chk, mg, "lsq_poly", order, rng, "raises %s" % e, nvol=nvol, earlier=earlier)
             continue
         a = [ctx.var("a%d" % d) for d in range(order + 1)]
         lx = dyadic
@@ -298,10 +303,10 @@ def lsq_obligations(chk, mg, tier, rng):
         chk.obligation(name + ": exact for ln omega polynomial in ln V up to the order (contains the power law)", "unsat" if not fails else "sat",
                        seconds=round(time.time() - t0, 2), kind="identity(exact least squares)", detail=fails[:3])
         if fails:
-            replay_method(chk, mg, "lsq_poly", order, rng, fails[0], nvol=nvol)
+            replay_method(chk, mg, "lsq_poly", order, rng, fails[0], nvol=nvol, earlier=earlier)
 
 
-def replay_method(chk, mg, method, order, rng, what, nvol=8):
+def replay_method(chk, mg, method, order, rng, what, nvol=8, earlier=()):
     """Concrete: power-law data omega = A V^-g; every method must return (A v^-g, g, 0) on an extrapolated grid.
     lsq_poly additionally: ln omega polynomial in ln V of degree = order."""
     if method == "lsq_poly" and order >= 1:
@@ -311,11 +316,16 @@ def replay_method(chk, mg, method, order, rng, what, nvol=8):
         co = [6.0, -1.3, 0.4, -0.2, 0.1, 0.05][:order + 1]
         px = lambda x, d=0: sum(c * numpy.prod([k - j for j in range(d)]) * (x - x0) ** (k - d) for k, c in enumerate(co) if k >= d)
         try:
+            from harness.common import fresh_copy
+            mg = fresh_copy(mg)          # only the replayed call sequence determines the outcome
+            for o_prev in earlier:
+                mg.interpolate_mode_lsq_poly(vols, numpy.exp(px(numpy.log(vols))), v, order=o_prev)
             w, gm, vd = (numpy.asarray(a, dtype=float) for a in mg.interpolate_mode_lsq_poly(vols, numpy.exp(px(numpy.log(vols))), v, order=order))
             lv = numpy.log(v)
             if numpy.abs(w / numpy.exp(px(lv)) - 1).max() > 1e-7 or numpy.abs(gm + px(lv, 1)).max() > 1e-6 or numpy.abs(vd + px(lv, 2)).max() > 1e-5:
-                chk.violation("lsq_poly:polynomial-data", "lsq_poly (order %d) is not exact for ln omega polynomial in ln V of that degree: "
-                              "gamma=%s expected %s" % (order, gm[:3].tolist(), (-px(lv, 1))[:3].tolist()), dict(order=order, nv=nvol))
+                chk.violation("lsq_poly:polynomial-data", "lsq_poly (order %d%s) is not exact for ln omega polynomial in ln V of that degree: "
+                              "gamma=%s expected %s" % (order, ", called after orders %s on the same volumes in the same process" % list(earlier) if earlier else "",
+                                                        gm[:3].tolist(), (-px(lv, 1))[:3].tolist()), dict(order=order, nv=nvol, earlier=list(earlier)))
                 return
         except Exception as e:
             chk.violation("lsq_poly:raises", "lsq_poly raises %s: %s" % (type(e).__name__, e), dict(order=order, nv=nvol))
